@@ -4,7 +4,7 @@ import ast
 from sa import astq
 from sa.astq import norm_text, ev_notify, ev_setattr, ev_hook
 from sa.idioms import guarded, reach_under, combine, attr_truth, infeasible_edges
-from sa.project import dotted, walk_local
+from sa.project import dotted, walk_local, AnalysisError
 from rules.c04 import registrations, removals, _kill_result_names
 
 EXPLANATION = (
@@ -235,6 +235,43 @@ def r4(run, ctx):
             bad = e.id in r and not all(astq.const_value(n.ast.value, None) == 0 or
                                         norm_text(n.ast.value) == 'status' for n in others)
             run.check('R4', not bad, 'exit_code is one of the decoded values', f, e.ast)
+    # a collected status is discarded ("still running, poll again") only when waitpid
+    # reported no state change, i.e. returned pid 0: tabulate the guard over
+    # pid in {0, child} x status in {0, exit 1, signal 9}
+    for wn in [n for n in ctx.live_nodes(f)
+               if any(dotted(c.func) == 'os.waitpid' for c in n.calls())]:
+        tg = wn.ast.targets[0] if isinstance(wn.ast, ast.Assign) else None
+        if not (isinstance(tg, ast.Tuple) and len(tg.elts) == 2):
+            continue
+        pid_name, st_name = norm_text(tg.elts[0]), norm_text(tg.elts[1])
+        handlers = [h for h in cfg.nodes if h.kind == 'except']
+        resets = [n for n in cfg.nodes if n.kind == 'stmt' and isinstance(n.ast, ast.Assign) and
+                  norm_text(n.ast.targets[0]) == st_name and
+                  astq.const_value(n.ast.value, 0) is None and cfg.reachable(wn, n) and
+                  not any(cfg.dominates([h], n) for h in handlers)]
+        for rn in resets:
+            tests = [t for t in cfg.nodes if t.kind == 'test' and cfg.dominates([t], rn) and
+                     cfg.reachable(wn, t) and rn.id in cfg.branch_nodes(t, 'true') and
+                     rn.id not in cfg.branch_nodes(t, 'false')]
+            bad = None
+            decided = False
+            for t in tests:
+                try:
+                    for pidv in (0, 4242):
+                        for stv in (0, 256, 9):
+                            if astq.eval_pure(t.ast, {pid_name: pidv, st_name: stv}) and pidv != 0:
+                                bad = (pidv, stv)
+                    decided = True
+                except astq.Unknown:
+                    continue
+            if not decided:
+                raise AnalysisError('C09 R4: cannot tabulate the still-running guard of '
+                                    'reap_process')
+            run.check('R4', bad is None, 'a wait status is discarded as "still running" only when '
+                      'waitpid returned pid 0', f, rn.ast,
+                      'waitpid result (pid=%s, status=%s) of an exited child is treated as "still '
+                      'running": its real exit status is thrown away and the reap event reports '
+                      'Popen.returncode (None)' % (bad or ('', '')))
     # status flows in unchanged from waitpid / the caller
     wp = [n for n in ctx.live_nodes(f) if any(dotted(c.func) == 'os.waitpid' for c in n.calls())]
     for n in wp:
